@@ -78,6 +78,12 @@ PropFlags(post, p, e) ==
 \cup (IF ~s.stopped /\ \E k \in 1..Len(Ov(e)) : \/ (Ov(e)[k] = {} /\ \E d \in Dest : p.has[d])
                                    \/ ~(Ov(e)[k] \subseteq {d \in Dest : p.has[d] \/ s.has[d]})
         THEN {"misrouted"} ELSE {})
+\* the queue of a destination the dynamic router removes in this callback is re-routed to the OTHER destinations (or held
+\* back when none is left): a recorded route that names the removed destination sends the datapoint into the queue that is
+\* being thrown away
+\cup (IF e.e \in {"ConnLost", "ConnFailed"} /\ s.has[e.arg] /\ ~post.has[e.arg]
+         /\ \E k \in 1..Len(Ov(e)) : e.arg \in Ov(e)[k]
+        THEN {"misrouted"} ELSE {})
 \* a destination that still holds queued datapoints is never given up: it is connected, connecting or waiting to retry
 \cup (IF \E d \in Dest : p.cs[d] = "stopped" /\ p.q[d] # <<>> THEN {"abandoned"} ELSE {})
 \cup (IF StuckS(Overlay(post, p)) THEN {"stuck"} ELSE {})
